@@ -358,6 +358,7 @@ pub fn run(run: &mut Run) {
         }
         acc.nontrivial(fnv(results[0].2.as_bytes()));
         let accepted = results.iter().filter(|r| r.1.is_ok()).count();
+        acc.traces_validated += accepted as u64;
         let mut fail = |acc: &mut Stats, sig: &str, detail: String, text: &str, preds: Vec<String>| {
             acc.outcome(sig);
             let mut files = serde_json::Map::new();
@@ -413,7 +414,7 @@ pub fn run(run: &mut Run) {
         }
     });
     run.stats = Stats::merge_all(accs);
-    run.rule = "programs with 3 (thorough: also 4) mutable globals whose initialisers are related by up to k edges, each edge one of: read, read inside a called function, read inside a function that is only stored, assignment / compound assignment inside a called function, blob literal field; every permutation of the top-level statements (blob declaration, globals, start) x helper functions before / after; non-trivial = every labelling that is not inherently order-dependent; distinct by edge labelling".into();
+    run.rule = "programs with 3 (thorough: also 4) mutable globals whose initialisers are related by up to k edges, each edge one of: read, read inside a called function, read inside a function that is only stored, assignment / compound assignment inside a called function, blob literal field (up to k edges), or a read wrapped in one of 18 further forms (then / else / condition, case scrutinee / arm / else, tuple, list, call argument, unary, and-operand, else-branch / loop / nested call inside a called function, function alias, variant payload, index, immediately called lambda; alone and combined with one plain read); every permutation of the top-level statements (blob declaration, globals, start) x helper functions before / after, plus the same program with one global moved to an imported file (cyclic import) under every order of that file and a sample of main's orders; non-trivial = every labelling that is not inherently order-dependent; distinct by edge labelling".into();
     run.bounds = json!({"globals": if thorough {"3 with <=3 edges, 4 with <=2 edges"} else {"3 with <=2 edges"}, "labelings": labs.len(), "edge_kinds": KINDS.iter().chain(WRAPPED.iter()).map(|k| format!("{:?}", k)).collect::<Vec<_>>()});
     run.assumptions = vec![
         "reference: RefSylt under every order of the value globals; orders that read or assign an uninitialised global are invalid; if the valid orders disagree the program is inherently order-dependent and excluded; if no order is valid the initialisers are cyclic".into(),
